@@ -139,6 +139,8 @@ impl ConstantPool {
             .collect()
     }
     pub fn push(&mut self, program_object: ProgramObject) -> ConstantPoolIndex {
+        // The bytecode format counts constants in a u16, so a pool holds at most 65535 entries.
+        assert!(self.0.len() < 65535usize);
         self.0.push(program_object);
         ConstantPoolIndex::from_usize(self.0.len() - 1)
     }
